@@ -211,13 +211,14 @@ def network_cases(jobs):
         for sername, a, v, comp, pad in jobs:
             sc.set_budget(30000)
             config.COMPRESSION = comp
+            config.SERPENT_BYTES_REPR = sername == "serpentb"
             tr = {"ser": sername, "v": norm_sent(a), "comp": comp, "level": "network", "hang": False, "pos": [], "sym": True, "idem": True, "exact": True,
                   "bsame": True, "ssame": True}
             try:
                 p = proxies.get(sername)
                 if p is None or p._pyroConnection is None:
                     p = proxies[sername] = P.Proxy(uri)
-                    p._pyroSerializer = sername
+                    p._pyroSerializer = "serpent" if sername == "serpentb" else sername
                     p._pyroBind()
                 record.clear()
                 pr, got, ok = pos("result", lambda: p.echo(v, k=v, pad=pad))
@@ -263,6 +264,7 @@ def network_cases(jobs):
                 proxies.pop(sername, None)
             traces.append(tr)
         config.COMPRESSION = False
+        config.SERPENT_BYTES_REPR = False
         for p in proxies.values():
             try:
                 p._pyroRelease()
@@ -361,9 +363,16 @@ def run(ctx):
             v, ok = concretise(a, W, rng, i + n)
             if ok:
                 concrete.append((a, v))
+    from Pyro5 import config
     for a, v in concrete:
         for sername, ser in sorted(serializers.serializers.items()):
             traces.append(serializer_case(ser, sername, a, v))
+        # the serpent serializer once more with bytes written as literals (SERPENT_BYTES_REPR)
+        config.SERPENT_BYTES_REPR = True
+        try:
+            traces.append(serializer_case(serializers.serializers["serpent"], "serpentb", a, v))
+        finally:
+            config.SERPENT_BYTES_REPR = False
     rng.shuffle(concrete)
     # extra keyword argument that brings the request just over the compression threshold with text that does not compress
     # (short high-entropy strings), next to no padding, repetitive padding and long non-ASCII padding
@@ -376,6 +385,8 @@ def run(ctx):
             if ctx.quick and k != i % 4 and a["k"] not in ("bigint", "complex", "date", "datetime", "bytes"):
                 continue
             jobs.append((sername, a, v, bool((i // 2 + k) % 2), pads[(i + k // 2) % len(pads)]))
+        if "bytes" in json.dumps(a) or i % 8 == 0:
+            jobs.append(("serpentb", a, v, bool(i % 2), pads[i % len(pads)]))
     traces += network_cases(jobs)
     traces += concurrent_cases(ctx.pick(40, 400))
     for tr in traces:
